@@ -189,7 +189,8 @@ func checkC03(c TargetCase, r *rec.Rec) error {
 	jdFails := !out.OK()
 
 	if out.Panicked {
-		cls = append(cls, "jd-panicked(counts-as-rejected)")
+		// "otherwise Patch returns an error": a panic is neither a result nor an error
+		return rec.Violated("Patch panicked on %s: %s\ndiff:\n%s", c.C, out.PanicMsg, sd.Render())
 	}
 	switch {
 	case refErr != nil && !jdFails:
@@ -404,6 +405,30 @@ func drawTarget(t *rapid.T, av, bv val.V, hs []ref.Hunk, p gen.Profile) (val.V, 
 			return gen.Doc(t, p), "independent"
 		}
 		return gen.Edit(t, av, p), "edit(a)"
+	case r < 52 && len(hs) > 0:
+		// an array somewhere on the path of a hunk cut to exactly the index the
+		// path goes through (or one more, one less)
+		h := gen.Pick(t, "pathHunk", hs)
+		var at []int
+		for i, e := range h.Path {
+			if e.Kind == ref.Index {
+				at = append(at, i)
+			}
+		}
+		if len(at) > 0 {
+			k := gen.Pick(t, "pathIndexAt", at)
+			n := h.Path[k].Index + gen.Pick(t, "cutDelta", []int{0, 0, 1, -1})
+			if nd, ok := rewriteAt(val.Clone(av), h.Path[:k], func(v val.V) val.V {
+				l, isArr := v.([]val.V)
+				if !isArr || n < 0 || n > len(l) {
+					return v
+				}
+				return append([]val.V{}, l[:n]...)
+			}); ok {
+				return nd, "cut-array-on-path"
+			}
+		}
+		return val.Clone(av), "a"
 	default:
 		var listHunks []ref.Hunk
 		for _, h := range hs {
